@@ -348,6 +348,10 @@ def runLine (st : Session) (line : String) : Session × String := Id.run do
        (if w[7 + 3 * k]! == "-" then none else some (parseEasing w[7 + 3 * k]!))⟩
     let s := SubTl.fromKeyframes kfs (parseVal kind w[3]!) (parseEasing w[4]!)
     return ({ st with subs := st.subs.insert w[1]!.toNat! s }, "ok")
+  | "subcf" =>
+    match st.subs.get? w[2]!.toNat! with
+    | none => return (st, "bad-slot")
+    | some src => return ({ st with subs := st.subs.insert w[1]!.toNat! src }, "ok")
   | "subov" =>
     match st.subs.get? w[1]!.toNat! with
     | none => return (st, "bad-slot")
